@@ -106,6 +106,11 @@ def run(ctx):
     from pykdebugparser.trace_codes import from_trace_codes_text
     from pykdebugparser.pykdebugparser import PyKdebugParser
     rnd = random.Random(ctx.seed)
+    # which decoder serves a record is a function of the fed object's OWN code table (spec/Dispatch_MC.tla): design
+    # model-checked with its misplaced-memo variants, behaviours replayed on real parser and dict objects
+    from . import dispatch
+    dispatch.model_check(ctx, ['memoByTableId', 'memoOnClass'])
+    dispatch.run(ctx)
     # generator-grain sessions on one object (spec/Sessions.tla): listings read alternately, abandoned half way, options
     # edited in place between requests; every next() validated by Sessions_Val, design model-checked by Sessions_MC
     from . import sessions
